@@ -96,8 +96,8 @@ MONITOR = "vlib.monitors.masterworker"
 # scripted alphabet ------------------------------------------------------------------------------
 DYING = ["die0", "die-delay", "close", "raise"]
 SENDING = ["send-ok", "send-err", "send-die"]
-EXTRA_DYING = ["sigkill", "partial-die", "close-linger", "die-orphan", "real-die", "real-kbd", "real-sysexit"]
-HANGS = ["hang", "orphan-hang"]
+EXTRA_DYING = ["sigkill", "partial-die", "close-linger", "die-orphan", "orphan-hang", "real-die", "real-kbd", "real-sysexit"]
+HANGS = ["hang"]
 EXTRA_SENDING = ["send-nogen", "real-ok", "real-raise"]
 TERMINAL = set(SENDING) | set(EXTRA_SENDING)
 DELIVERS_OK = {"send-ok", "send-die", "real-ok"}
@@ -579,9 +579,7 @@ def _stub_worker_main(task, sending_connection):
             time.sleep(0.6 if step == "die-orphan" else 3600)
             os._exit(0)
         _wlog(f"{pid} {idx} orphan {gpid}")
-        if step == "orphan-hang":
-            _wlog(f"{pid} {idx} hang {step}")
-        os._exit(3)
+        os._exit(3)  # the worker is dead in both cases: "orphan-hang" is a dying step, not a hang
     if step in ("send-ok", "send-die", "send-nogen", "send-err"):
         if step == "send-err":
             res = w.WorkerResult(task_id=task.task_id, worker_return_code=w.WorkerReturnCode.OK, return_code=None,
@@ -841,7 +839,7 @@ def judge_scripted(ctx, case, rec):
         ctx.extra.setdefault("watchdog_retries", []).append({"case": dict(c), "second_wall": rec.get("wall")})
     if rec.get("timeout"):
         if hung:
-            ctx.anomaly("master-blocks-on-orphan-of-dead-worker-holding-the-pipe" if hung[-1][3] == "orphan-hang" else "master-blocks-on-hung-worker")
+            ctx.anomaly("master-blocks-on-hung-worker")
             ctx.ok(cls=["scripted:hang"] + [f"scripted:step-reached={s}" for s in set(reached)], distinct={"w": "scripted", **c})
             # the restart rules still apply to what happened before the hang
             check_protocol(ctx, "scripted", c, {"events": events, "rc": None, "timeout": True, "delivered_ok": False, "delivered_any": False}, label)
